@@ -37,6 +37,42 @@ PROPS["C02"] = {
     ],
 }
 
+PROPS["C08"] = {
+    "kani": "c08",
+    "level": "model_checking",
+    "explanation": "Bounded model checking (Kani/CBMC) of the pruning kernels that are executable symbolically: the order-preserving key encodings shared by the SuRF builder and the range probe (same-kind and cross-kind literals), the per-zone time index (builder invariant + query side from any state satisfying it) and the calendar's bucket arithmetic. Soundness is asserted as: whenever a stored value satisfies the probe, the structure's comparison keeps the zone.",
+    "outside": [
+        "the trie itself (SurfTrie::build_from_sorted uses a HashMap; 16-lane SIMD child scan), so probe soundness is shown at the level of the byte keys the trie orders lexicographically",
+        "enum bitmaps, calendar index (HashMap<u32,RoaringBitmap>, incl. the u32 bucket-id truncation and the min_ts >= 0 insertion guard in the async builder), XOR / binary-fuse filters, context index, index catalog, the >90% fallback rule: HashMap / roaring / xorf / I-O bound",
+        "strings and booleans as range keys; floats with |x| >= 9e18 (u64 / f64 fall-back lanes)",
+        "bucket arithmetic beyond 2^34 epoch seconds under Kani (bit-blasted constant dividers)",
+    ],
+}
+
+PROPS["C09"] = {
+    "kani": "c09",
+    "level": "model_checking",
+    "explanation": "Bounded model checking (Kani/CBMC) of the aggregate kernels: partial states of any split of a multiset merge to the state of the whole (AggState::merge for COUNT / TOTAL / AVG / MIN / MAX), the aggregators' update / merge / finalize equal the mathematical metric, the memory-tier update_from_event feeds exactly the stored values, snapshot_aggregator preserves the mergeable state.",
+    "outside": [
+        "COUNT UNIQUE (HashSet), group keys and AggPartial::merge (HashMap), the segment-tier update(row, columns) and SIMD update_column paths (HashMap<String, ColumnValues>)",
+        "calendar-aware PER bucketing (chrono), equality with the selection path over stored data, FOR / SINCE handling in aggregate mode (build_from_plan needs a QueryPlan)",
+        "i64 overflow of sums (|v| < 2^60 assumed)",
+        "MIN / MAX over strings and floats (String formatting / parsing)",
+    ],
+}
+
+PROPS["C10"] = {
+    "kani": "c10",
+    "level": "model_checking",
+    "explanation": "Bounded model checking (Kani/CBMC) of the comparison every sorter and k-way merger delegates to (ScalarValue::compare) on each numeric / time / bool sort-key type: equals the typed order, antisymmetric and transitive over three arbitrary values; plus the heap ordering (asc / desc, shard tie-break) of the ordered merger through a cfg(kani) hook.",
+    "outside": [
+        "the slice m..m+n itself: offset / limit are applied in an async writer whose state includes a HashSet; ordered mergers run over channels; top-k zone pre-selection (RLTE) is I/O",
+        "string sort keys in general (str::parse of symbolic text does not finish); only the concrete witness of F-C10-a",
+        "OFFSET without LIMIT rejection (handler)",
+        "Int64 vs Float64 keys beyond 2^53 (as_f64 rounding)",
+    ],
+}
+
 # Properties not (or not yet) claimed, each with the reason. Entries are removed from here
 # when a check for the property is registered in PROPS.
 NOT_APPLICABLE = {
@@ -46,9 +82,6 @@ NOT_APPLICABLE = {
     "C05": "check not built yet",
     "C06": "check not built yet",
     "C07": "check not built yet",
-    "C08": "check not built yet",
-    "C09": "check not built yet",
-    "C10": "check not built yet",
     "C11": "check not built yet",
     "C12": "check not built yet",
     "C13": "check not built yet",
